@@ -186,19 +186,39 @@ DeepPolicies ==
   {Mk("allow", TRUE, << [names |-> ns, conds |-> es \o <<Entry(1, <<DC(0, "Equal", 2)>>)>>, act |-> "errno"],
                         [names |-> <<0>>, conds |-> <<>>, act |-> "kill_process"] >>) : ns \in {<<>>}, es \in DeepEntries}
 
+\* defects at real scale (C07): a duplicate / unknown name / conditional twin far into a long list
+LongDefectPolicies ==
+  LET base(n) == IdxRange(0, n - 1) IN
+  UNION {{Mk("allow", TRUE, <<LG(Append(base(n), 0), "errno")>>),                        \* duplicate of the first name at the end
+          Mk("allow", TRUE, <<LG(Append(base(n), n - 1), "errno")>>),                    \* duplicate of the last name
+          Mk("allow", TRUE, <<LG(<<n - 1>> \o base(n), "errno")>>),                      \* duplicate at the front
+          Mk("allow", TRUE, <<LG(Append(base(n), Unknown), "errno")>>),                  \* unknown name at the end
+          Mk("allow", FALSE, <<LG(base(n), "errno"), LG(Append(base(n), Unknown), "trap")>>),
+          Mk("allow", TRUE, << [names |-> base(n), conds |-> <<Entry(n - 1, <<DC(0, "Equal", 1)>>)>>, act |-> "errno"] >>),   \* conditional twin of the last name
+          Mk("allow", TRUE, << [names |-> base(n), conds |-> <<Entry(n, <<DC(6, "Equal", 1)>>)>>, act |-> "errno"] >>),       \* argument index 6 behind a long list
+          Mk("allow", TRUE, <<LG(base(n), "errno")>>),                                   \* (valid controls)
+          Mk("allow", TRUE, <<LG(base(n), "errno"), LG(base(n), "trap")>>)} : n \in {2, 255, 256, 257, 299}}
+\* every operation at real scale (C03): list j constrains argument j % 6 with operation number j % 8 and operand j
+OpLists(k) == [j \in 1..k |-> <<[arg |-> j % 6, op |-> Ops[(j % 8) + 1], val |-> j]>>]
+LongOpsPolicies ==
+  {Mk("allow", x, << [names |-> <<0>>, conds |-> [j \in 1..k |-> Entry(NSys - 2, OpLists(k)[j])] \o <<Entry(NSys - 1, <<DC(5, "GreaterThan", 7)>>)>>, act |-> "errno"],
+                     LG(<<NSys - 3, NSys - 2>>, "kill_process") >>) : x \in {TRUE, FALSE}, k \in {8, 60, 64, 127, 128}}
+
 \* the kernel's limit (C07: every defect-free policy that fits 4096 instructions is accepted): 993 single-condition lists
 \* for one syscall (4 instructions each) in one group plus n names in a second group put the program size at 4090..4101
 LimitPolicies ==
   {Mk("allow", x, << [names |-> <<>>, conds |-> [j \in 1..993 |-> Entry(NSys - 1, EqLists(993, 1)[j])], act |-> "errno"],
                      LG(IdxRange(0, n - 1), "kill_process") >>) : x \in {TRUE}, n \in 90..101}
 
-Explicit(s) == s \in {"defects", "defects2", "long1", "long2", "longconds", "klong", "chain", "deep", "limit"}
+Explicit(s) == s \in {"defects", "defects2", "long1", "long2", "longconds", "klong", "chain", "deep", "limit", "longdefects", "longops"}
 ExplicitPolicies(s) ==
   CASE s = "defects" -> BasePolicies(0) \cup Defective1(0)
     [] s = "defects2" -> BasePolicies(0) \cup Defective1(0) \cup Defective2(0)
     [] s \in {"long1", "long2", "longconds", "klong"} -> LongPolicies(s)
     [] s = "chain" -> ChainPolicies
     [] s = "limit" -> LimitPolicies
+    [] s = "longdefects" -> LongDefectPolicies
+    [] s = "longops" -> LongOpsPolicies
     [] s = "deep" -> DeepPolicies
 
 ---------------------------------------------------------------------------
@@ -212,6 +232,10 @@ EventSeq(s) ==
          SetToSeq({Ev(ar, nr, a) : ar \in {"own", "other"},
                                    nr \in Sys \cup {NSys, X32Bit, X32Bit + 1}, a \in Args2})
     [] s \in {"long1", "long2", "longconds", "klong"} -> LongEvents(s)
+    [] s = "longdefects" -> LongEvents("long1")
+    [] s = "longops" ->
+         SetToSeq({Ev(ar, nr, [a \in 0..5 |-> v]) : ar \in {"own", "other"}, nr \in {0, NSys - 3, NSys - 2, NSys - 1, NSys, X32Bit + NSys - 2},
+                                                  v \in {0, 1, 7, 8, 59, 60, 63, 64, 65, 127, 128, 129, 200, 255, 256, 65535}})
     [] s = "limit" ->
          SetToSeq({Ev(ar, nr, [a \in 0..5 |-> v]) : ar \in {"own", "other"}, nr \in {0, 89, 90, 95, 101, NSys - 1, NSys, X32Bit + 1}, v \in {0, 2, 500, 994, 995}})
     [] s = "single" ->
